@@ -50,3 +50,5 @@ SPEC = {'id': 'C13',
              'strconv.ParseFloat range error, unicode/utf8 DecodeRune/AppendRune; pion/webrtc SDPType.MarshalJSON'],
  'assumptions': ['int is 64 bits; DeserializeSessionDescription and remoteIPFromSDP are the only functions applied to the '
                  'untrusted string before pion']}
+
+SPEC['thorough_passes'] = 5  # the thorough tier runs the whole harness under this many consecutive seeds
